@@ -37,6 +37,12 @@ def package(features: list[str], k: int) -> Path:
         files["inner/__init__.py"] = ""
         files["inner/_impl.py"] = "class Hidden:\n    def m(self, a: int) -> int:\n        ...\n\n\ndef helper(a: int) -> int:\n    ...\n"
         files["user.py"] = "from histpkXX.inner._impl import Hidden\n\n\ndef use(h: Hidden) -> int:\n    ...\n"
+    if "two-reexporters" in f:
+        files["core/__init__.py"] = ""
+        files["core/geometry/__init__.py"] = "from .impl import Circle, area\n"
+        files["core/geometry/impl.py"] = "class Circle:\n    def r(self) -> int:\n        ...\n\n\ndef area(c: Circle) -> int:\n    ...\n"
+        files["facade/__init__.py"] = "from histpkXX.core.geometry.impl import Circle, area\n"
+        files["facade/fill.py"] = "def fill() -> int:\n    ...\n"
     root = f"histpk{k:02d}"
     files = {p: t.replace("histpkXX", root) for p, t in files.items()}
     return write_pkg(files, root)
